@@ -71,6 +71,16 @@ class CoreMixin:
     def attr_fun(self, name):
         return self.declare_fun("attr_" + name.replace("__", "dd_"), ["V"], "V")
 
+    def ext_instance(self, a, b):
+        """Skolemised sequence extensionality for two container values: if they are containers of the same
+        kind and length and differ, they differ at the fresh index k (a valid fact for a fresh k)."""
+        kname = self.declare(fresh_name("ext"), "Int")
+        sa, sb = f"(seqof {a})", f"(seqof {b})"
+        samekind = f"(or (and (k_list {a}) (k_list {b})) (and (k_tuple {a}) (k_tuple {b})) (and (k_dict {a}) (k_dict {b})))"
+        fact = (f"(=> (and {samekind} (= (seq.len {sa}) (seq.len {sb})) (not (= {a} {b}))) "
+                f"(and (<= 0 {kname}) (< {kname} (seq.len {sa})) (not (= (seq.nth {sa} {kname}) (seq.nth {sb} {kname})))))")
+        self.globals_assumed.append(fact)
+
     def use_spec_fun(self, name):
         self.used_spec.add(name)
 
